@@ -30,6 +30,9 @@ func runC13(c *Ctx) {
 	}
 	r.NotDecided = []string{"wildcard expansion in IntentionMatch for all pairs", "agreement between legacy and config-entry storage for all sets"}
 
+	r.Clauses = append(r.Clauses, "C13.8 the matcher used for decisions (connect.IntentionMatch) answers true for a side only below a comparison of EVERY part of that side's key — peer, partition, namespace, name for the source; partition, namespace, name for the destination")
+	checkMatchComparesEveryKeyPart(c)
+
 	wild := "*"
 	if cv, ok := constOf(p, "agent/structs", "WildcardSpecifier"); ok {
 		wild = constant.StringVal(cv)
@@ -686,4 +689,116 @@ func checkLegacyDuplicateCheck(c *Ctx) {
 		}
 	}
 	r.Floor("C13.7", 1)
+}
+
+
+// C13.8: in connect.IntentionMatch, for each match type, a `true` result is reachable from that
+// type's case only through an "equal" (or wildcard) edge of a comparison on each part of the key.
+// Skipping one part (comparing the partition only when the peer is empty, say) lets an intention
+// written for another cluster/partition decide for a local service of the same name.
+func checkMatchComparesEveryKeyPart(c *Ctx) {
+	p, r := c.P, c.R
+	f := p.Func("agent/connect", "IntentionMatch")
+	if f == nil {
+		r.Unresolve("C13.8", "connect.IntentionMatch", "not found")
+		return
+	}
+	cases := map[string][]string{
+		"source":      {"SourcePeer", "SourcePartition", "SourceNS", "SourceName"},
+		"destination": {"DestinationPartition", "DestinationNS", "DestinationName"},
+	}
+	// edges on which the match type equals a constant
+	caseEdges := map[string][]core.Edge{}
+	for _, cv := range core.Comparisons(f, 0) {
+		if cv.Op != token.EQL && cv.Op != token.NEQ {
+			continue
+		}
+		for _, pair := range [][2]ssa.Value{{cv.X, cv.Y}, {cv.Y, cv.X}} {
+			k, ok := core.ConstString(pair[0])
+			if !ok {
+				continue
+			}
+			if _, isParam := pair[1].(*ssa.Parameter); !isParam {
+				continue
+			}
+			if _, known := cases[k]; !known {
+				continue
+			}
+			if cv.Op == token.EQL {
+				caseEdges[k] = append(caseEdges[k], cv.True...)
+			} else {
+				caseEdges[k] = append(caseEdges[k], cv.False...)
+			}
+		}
+	}
+	mentions := func(v ssa.Value, field string) bool {
+		hit := false
+		core.Leaves(v, core.SliceOpts{ThroughCalls: true, StopAt: func(x ssa.Value) bool {
+			if core.AccessOf(x).LastField() == field {
+				hit = true
+			}
+			return false
+		}})
+		return hit
+	}
+	for _, kind := range []string{"destination", "source"} {
+		if len(caseEdges[kind]) == 0 {
+			r.Violate("C13.8", "connect.IntentionMatch/"+kind, p.FuncPos(f), "no case for match type "+kind)
+			continue
+		}
+		for _, field := range cases[kind] {
+			construct := "connect.IntentionMatch/" + kind + "/" + field
+			accepted := core.GuardEdges(f, 2, func(cv core.CmpView) (bool, bool) {
+				if cv.Op != token.EQL && cv.Op != token.NEQ {
+					return false, false
+				}
+				if mentions(cv.X, field) || mentions(cv.Y, field) {
+					return cv.Op == token.EQL, cv.Op == token.NEQ
+				}
+				return false, false
+			})
+			cut := map[core.Edge]bool{}
+			for _, e := range accepted {
+				cut[e] = true
+			}
+			bad := ""
+			for _, ce := range caseEdges[kind] {
+				w := &core.Walk{Cut: func(b *ssa.BasicBlock, si int) bool { return cut[core.Edge{From: b, Succ: si}] }}
+				w.FromEdge(ce.From, ce.Succ)
+				for _, rt := range core.Returns(f) {
+					if !w.Reached(rt.Block()) {
+						continue
+					}
+					v := core.ResolveResult(rt, 0)
+					if b, ok := core.ConstBool(v); ok && !b {
+						continue
+					}
+					if ph, ok := v.(*ssa.Phi); ok {
+						all := true
+						for i, e := range ph.Edges {
+							if b, ok := core.ConstBool(e); ok && !b {
+								continue
+							}
+							if w.Reached(ph.Block().Preds[i]) {
+								all = false
+							}
+						}
+						if all {
+							continue
+						}
+					}
+					bad = p.Pos(rt.Pos())
+				}
+			}
+			switch {
+			case len(accepted) == 0:
+				r.Violate("C13.8", construct, p.FuncPos(f), field+" is never compared: an intention matches regardless of this part of its key")
+			case bad != "":
+				r.Violate("C13.8", construct, p.FuncPos(f), "a "+kind+" match can be reported (return at "+bad+") on a path that never compared "+field+": an intention whose "+field+" differs from the target's decides for it")
+			default:
+				r.Hold("C13.8", construct, p.FuncPos(f), "a match is reported only below an equal/wildcard edge on "+field)
+			}
+		}
+	}
+	r.Floor("C13.8", 7)
 }
